@@ -281,5 +281,43 @@ def status_after_errors(res, work):
 
 
 def replay(dis):
-    print(dis)
+    """re-run the recorded process-level case on the current tree; 1 if it still fails"""
+    c = dis.get('input') or {}
+    cat = (dis.get('sig') or {}).get('category')
+    work = os.path.join(common.BUILD, 'c13-replay')
+    os.makedirs(work, exist_ok=True)
+    try:
+        if isinstance(c, dict) and 'text' in c and 'sched' in c:
+            sup = bool(c.get('supress'))
+            rl = run_mode('load', c['text'], c['sched'], work, brk=c.get('brk'), supress=sup)
+            rp = run_mode('pipe', c['text'], c['sched'], work, brk=c.get('brk'), supress=sup)
+            rr = run_mode('run', c['text'], c['sched'], work, c.get('extra') or [], c.get('parent_env'), c.get('lib_dir'), brk=c.get('brk'), supress=sup)
+            dl, dp, dr = display(rl.stdout), display(rp.stdout), display(rr.stdout)
+            bad = []
+            if not (dl == dp == dr):
+                bad.append('modes differ')
+            if rr.returncode != c['sched']['status']:
+                bad.append('exit status %r instead of %r' % (rr.returncode, c['sched']['status']))
+            if 'MARKER-ON-STDOUT' not in rr.stdout:
+                bad.append('stdout marker missing')
+            print('load:', dl[-4:])
+            print('pipe:', dp[-4:])
+            print('run :', dr[-4:], 'status', rr.returncode)
+            print('REPRODUCED: ' + ', '.join(bad) if bad else 'not reproduced on the current tree')
+            return 1 if bad else 0
+        if isinstance(c, dict) and 'sched' in c and 'stdin' in c:
+            sp = os.path.join(work, 'sched.json')
+            json.dump(c['sched'], open(sp, 'w'))
+            hp = os.path.join(work, 'helper.py')
+            open(hp, 'w').write(HELPER)
+            env = dict(os.environ, PYTHONPATH=common.REPO, WDV_SCHED=sp, WDV_DUMP=os.path.join(work, 'dump.json'))
+            kw = dict(stdin=subprocess.DEVNULL) if c['stdin'] == 'EOF' else dict(input=c['stdin'])
+            r = subprocess.run([sys.executable, '-B', os.path.join(common.REPO, 'main.py'), '-C', '-r', sys.executable, hp], capture_output=True, text=True, env=env, timeout=120, **kw)
+            print('exit status', r.returncode, 'expected', c['sched']['status'])
+            print('REPRODUCED' if r.returncode != c['sched']['status'] else 'not reproduced on the current tree')
+            return 1 if r.returncode != c['sched']['status'] else 0
+    finally:
+        import shutil
+        shutil.rmtree(work, ignore_errors=True)
+    print(cat, str(dis)[:3000])
     return 0
